@@ -96,12 +96,12 @@ CHECKS = {
         "the IP / CP writers of the trainer (statement slices) and the IP / CP / LN readers of guesser and scorer are verified against the file as a list of lines. "
         "Bounded: trainer level == scorer level == level at which the real MarkovCracker emits the string, through the real files.",
    note="strings as an uninterpreted sort; split/rstrip/int/str identities between a written and a read line only bounded; smoothing, EP/LN writers, config not under contract; guesser generator is C10's subject"),
- 'C10': dict(level='other', technique=TECH + " for the level search, string formatting and first-level search; exact enumeration by a labelled bounded stand-in",
+ 'C10': dict(level='other', technique=TECH + " for the level search, string formatting, first-level search and the two level cursors; exact enumeration by a labelled bounded stand-in",
    text="Deductive for all inputs: _find_cp returns the highest level in [bottom, min(top, max_level)] at which the prefix has transitions (exactly that list) and (None, None) exactly when "
-        "none exists; _format_guess is the initial n-gram followed by the letters the parse tree points at; _find_first_object returns the lowest populated level in 0..max_level inclusive. "
+        "none exists; _format_guess is the initial n-gram followed by the letters the parse tree points at; _find_first_object returns the lowest populated level in 0..max_level inclusive; the two cursors (_increase_len_for_target, _increase_ip_for_target) move to the next (level, index) entry in level order whose level is at most min(max_level, budget), rebuild the GuessStructure for exactly the new cursors with the remaining level (the length step restarts the initial n-grams at (start_ip, 0)), and return False, changing nothing, exactly when no such entry is left. "
         "Bounded (never counted as proved): the multiset emitted per level equals a brute-force enumeration, for shuffled level histories sharing one cache; pickle round trip at every cut."
         " _load_ngrams (IP, CP) and _load_length load exactly the files' content in file order; the loaded tables are identical across hash seeds (bounded).",
-   note="the in-place backtracking successor (next_guess, _fill_out_parse_tree, Optimizer) is outside the verifiable subset; exactness rests on the stated bound"),
+   note="the in-place backtracking successor (GuessStructure.next_guess, _fill_out_parse_tree, Optimizer) and the driving loop of MarkovCracker.next_guess are outside the verifiable subset; exactness rests on the stated bound"),
  'C18': dict(level='other', technique=TECH + "; statement slice of save_omen_rules_to_disk extracted mechanically; recursive count trusted and compared with the real generator by a bounded stand-in",
    text="calc_omen_keyspace (all models, all max_level/max_keyspace): every listed level holds the complete sum over initial n-grams with ip_level <= level and lengths >= n-gram size "
         "with length level <= the rest of the recursive count for (rest, length - ngram + 1 transitions); the cut-off never leaves a partial level. Slice of save_omen_rules_to_disk: "
